@@ -69,6 +69,14 @@ CYCLIC = [
     "local o = { t: std.trace('t', self) }; std.type(o.t)",
     "local o = { s: std.toString(self.v), v: { w: [1, { me: 'x' }] } }; o.s",
     "local o = std.prune({ a: { b: null, c: { d: [] } }, e: 1 }); o",
+    # standalone `super` (jrsonnet extension): a view object that refers back to the object it was taken from
+    "local base = { a: 1, b: 2 }; local o = base + { view: super, sum: self.view.a + self.view.b }; o.sum",
+    "local base = { a: 1, b: 2 }; local o = base + { view: super }; std.objectFields(o.view)",
+    "local o = { a: 1 } + { v: super, w: self.v } + { x: super, y: [self.x, self.w] }; std.length(o.y)",
+    "local o = { a: 1 } + { v:: super, me: self }; o.me.v.a",
+    "local o = { a: 1 } + { f():: super, r: self.f().a, keep: self.f() }; o.r",
+    "local o = { a: self.b, b: 2 } + { s: super, t: self.s.a }; o.t",
+    "local mk(x) = x + { up: super }; local o = mk(mk({ a: 1 })); std.objectFields(o.up.up)",
 ]
 
 
